@@ -384,7 +384,14 @@ fn resource_set(k: usize) -> ResourceSet {
 fn limit(k: usize, opt: bool) -> prov::RequestResourceLimit {
     let mut l = prov::RequestResourceLimit::new();
     if opt {
-        match k % 3 {
+        match k % 5 {
+            // a limit to the empty set is a limit ("none of that kind"), not the absence of one
+            3 => l.with_asn(AsBlocks::empty()),
+            4 => {
+                l.with_asn(AsBlocks::empty());
+                l.with_ipv4(Ipv4Blocks::empty());
+                l.with_ipv6(Ipv6Blocks::empty());
+            }
             0 => l.with_asn(AsBlocks::from_str("AS64496").unwrap()),
             1 => {
                 l.with_ipv4(Ipv4Blocks::from_str("10.0.0.0/24, 10.1.0.0-10.1.0.9").unwrap());
